@@ -202,6 +202,8 @@ def _histories(rec, acct, TdmsFile, path, data, ex, d, valid):
     sources.append(('fileobj', lambda: fobj, fobj))
     rawobj = open(path, 'rb', buffering=0)          # an unbuffered (raw) file object supplied by the caller
     sources.append(('raw_fileobj', lambda: rawobj, rawobj))
+    import pathlib
+    sources.append(('pathlib', lambda: pathlib.Path(path), None))
     if os.path.exists(path + '_index'):
         # the .tdms_index file itself given as the path to read (metadata only; data reads are refused)
         sources.append(('index_path', lambda: path + '_index', None))
